@@ -5,6 +5,7 @@
 From Coq Require Import List ZArith Bool Lia Permutation.
 From IpfsLog Require Import Model.System Proofs.OmapProofs Proofs.Inv Proofs.SysProofs Proofs.StepProofs
      Proofs.TravProofs Proofs.TimeProofs Proofs.ValuesProofs Proofs.PInv Proofs.PJoin Proofs.PSys.
+From IpfsLog Require Import Proofs.POpen.
 Import ListNotations.
 Open Scope Z_scope.
 
@@ -39,6 +40,14 @@ Proof.
   intros W L Hs J. destruct (psinv_run ops W) as [_ IL].
   exact (join_keeps_held_entries _ l o same size l' out (IL r l L) Hs J).
 Qed.
+
+(* ... also when [l] is a replica of a history in which logs are re-opened over selections of entries
+   ([owf], Proofs/POpen.v) *)
+Theorem C05_merge_of_any_log_keeps_held_entries_reopened ops r l o same size l' out :
+  owf ops -> nth_error (s_logs (run ops)) r = Some l -> size < 0 ->
+  join l o same size = (l', out) ->
+  forall k v, In (k, v) (l_entries l) -> In (k, v) (l_entries l').
+Proof. intros W L. exact (ojoin_keeps_held_entries ops r l W L o same size l' out). Qed.
 
 (* an operation on one replica never alters another replica *)
 Theorem C05_other_replicas_untouched ops o r' l' :
@@ -99,3 +108,4 @@ Print Assumptions C05_other_replicas_untouched.
 Print Assumptions C05_monotone_over_histories.
 Print Assumptions C05_values_subsequence.
 Print Assumptions C05_nonvacuous.
+Print Assumptions C05_merge_of_any_log_keeps_held_entries_reopened.
